@@ -1098,3 +1098,81 @@ V('c09-revert-auth-gate', 'C09', 'R9.8', IMAP,
 V('c09-twin-authorize-nested', 'C09', 'R9.4', DICTINIT,
   "if authcid != authzid and 'admin' not in roles:",
   "if not (authcid == authzid or 'admin' in roles):", expect='silent')
+
+# ---------------------------------------------------------------- C19
+SSTATE = 'pymap/sieve/manage/state.py'
+DFILTER = 'pymap/backend/dict/filter.py'
+V('c19-putscript-before-gate', 'C19', 'R19.1', SIEVEM,
+  '''                    elif self._state is None:
+                        if isinstance(cmd, AuthenticateCommand):''',
+  '''                    elif isinstance(cmd, UnauthenticateCommand):
+                        resp = await self._do_unauthenticate()
+                    elif self._state is None:
+                        if isinstance(cmd, AuthenticateCommand):''')
+V('c19-state-run-unauth', 'C19', 'R19.1', SIEVEM,
+  '''                        else:
+                            resp = Response(Condition.NO, text='Bad command.')
+                    else:''', '''                        else:
+                            resp = await self._state.run(cmd)
+                    else:''')
+V('c19-gate-inverted', 'C19', 'R19.1', SIEVEM,
+  '                    elif self._state is None:',
+  '                    elif self._state is not None:')
+V('c19-rename-not-dispatched', 'C19', 'R19.3', SSTATE,
+  '''            elif isinstance(cmd, RenameScriptCommand):
+                return await self._do_rename_script(cmd)
+''', '')
+V('c19-delete-before-active-test', 'C19', 'R19.4', DFILTER,
+  '''        if name not in self._filters:
+            raise KeyError(name)
+        elif name == self._active:
+            raise ValueError(name)
+        del self._filters[name]''',
+  '''        if name not in self._filters:
+            raise KeyError(name)
+        del self._filters[name]
+        if name == self._active:
+            raise ValueError(name)''')
+V('c19-delete-no-active-test', 'C19', 'R19.4', DFILTER,
+  '''        elif name == self._active:
+            raise ValueError(name)
+        del self._filters[name]''', '''        del self._filters[name]''')
+V('c19-rename-drops-active', 'C19', 'R19.4', DFILTER,
+  '''        if self._active == before_name:
+            self._active = after_name''', '''        if self._active == before_name:
+            self._active = None''')
+V('c19-put-strips', 'C19', 'R19.5', DFILTER,
+  'self._filters[name] = value', 'self._filters[name] = value.strip()')
+V('c19-getscript-decoded', 'C19', 'R19.5', 'pymap/sieve/manage/response.py',
+  'data_str = LiteralString(self.script_data)',
+  'data_str = String.build(self.script_data)')
+V('c19-cache-by-demo-user', 'C19', 'R19.6', DICTINIT,
+  'config.set_cache[identity] = (mailbox_set, filter_set)',
+  'config.set_cache[config.demo_user] = (mailbox_set, filter_set)')
+# twins
+V('c19-twin-gate-flipped', 'C19', 'R19.1', SIEVEM,
+  '''                    elif self._state is None:
+                        if isinstance(cmd, AuthenticateCommand):
+                            resp = await self._do_authenticate(cmd)
+                        elif isinstance(cmd, StartTLSCommand):
+                            resp = await self._do_starttls()
+                        else:
+                            resp = Response(Condition.NO, text='Bad command.')
+                    else:
+                        if isinstance(cmd, UnauthenticateCommand):
+                            resp = await self._do_unauthenticate()
+                        else:
+                            resp = await self._state.run(cmd)''',
+  '''                    elif self._state is not None:
+                        if isinstance(cmd, UnauthenticateCommand):
+                            resp = await self._do_unauthenticate()
+                        else:
+                            resp = await self._state.run(cmd)
+                    else:
+                        if isinstance(cmd, AuthenticateCommand):
+                            resp = await self._do_authenticate(cmd)
+                        elif isinstance(cmd, StartTLSCommand):
+                            resp = await self._do_starttls()
+                        else:
+                            resp = Response(Condition.NO, text='Bad command.')''',
+  expect='silent')
